@@ -172,6 +172,12 @@ func c12Scenarios(tier string) []e1lib.Scenario {
 		add(stage.Cfg{Stage: "join", Cap: 1, Inputs: mixed, Stop: -1}, b)
 		add(stage.Cfg{Stage: "join", Cap: 0, Inputs: mixed, Stop: -1, Cancel: true}, b)
 	}
+	// one input of 1100 elements (more than 1024) next to a short one, the default schedule only
+	for _, cp := range []int{0, 2} {
+		add(stage.Cfg{Stage: "join", Cap: cp, Inputs: []int{3, 1100}, Stop: -1}, 0)
+		out[len(out)-1].Horizon = 40 * 1100
+		out[len(out)-1].RealDone = nil
+	}
 	dev = false
 	if tier == "thorough" {
 		add(stage.Cfg{Stage: "join", Cap: 0, Inputs: []int{1, 1, 1, 1}, Stop: -1}, -1)
